@@ -279,6 +279,42 @@ class _ArgTemp(ast.NodeTransformer):
         return node
 
 
+class _MethodOrder(ast.NodeTransformer):
+    """Reverse the order of the methods of every class (classes that define a name twice - overloads, property setters - are left)."""
+
+    def visit_ClassDef(self, node: ast.ClassDef) -> ast.AST:  # noqa: N802
+        self.generic_visit(node)
+        defs = [st for st in node.body if isinstance(st, (ast.FunctionDef, ast.AsyncFunctionDef))]
+        names = [d.name for d in defs]
+        if len(set(names)) != len(names) or len(defs) < 2:
+            return node
+        # keep everything that is not a method in place, methods go to the end in reverse order
+        first_def = next(i for i, st in enumerate(node.body) if st in defs)
+        if any(not isinstance(st, (ast.FunctionDef, ast.AsyncFunctionDef)) for st in node.body[first_def:]):
+            return node  # class attributes between methods may depend on earlier ones
+        node.body = node.body[:first_def] + list(reversed(defs))
+        return node
+
+
+class _AddElse(ast.NodeTransformer):
+    """`if c: …; return X` followed by REST  ->  `if c: …; return X else: REST` (the body always leaves the block)."""
+
+    def _body(self, body: list[ast.stmt]) -> list[ast.stmt]:
+        for i, st in enumerate(body):
+            if isinstance(st, ast.If) and not st.orelse and isinstance(st.body[-1], (ast.Return, ast.Raise, ast.Continue, ast.Break)) and i + 1 < len(body):
+                st.orelse = self._body(body[i + 1 :])
+                return body[: i + 1]
+        return body
+
+    def generic_visit(self, node: ast.AST) -> ast.AST:
+        super().generic_visit(node)
+        for fld in ("body", "orelse", "finalbody"):
+            b = getattr(node, fld, None)
+            if isinstance(b, list) and b and isinstance(b[0], ast.stmt) and not isinstance(node, (ast.Module, ast.ClassDef)):
+                setattr(node, fld, self._body(b))
+        return node
+
+
 class _MsgText(ast.NodeTransformer):
     """Reword the message of every `raise X("…")` (prefix added)."""
 
@@ -299,7 +335,7 @@ def transform(src: str, kind: str) -> str:
         tree = _Rename().visit(tree)
     if kind in ("swapif", "all"):
         tree = _SwapIf().visit(tree)
-    for k_, cls_ in (("swapifexp", _SwapIfExp), ("yoda", _Yoda), ("kwreorder", _KwReorder), ("excorder", _ExcOrder), ("msgtext", _MsgText), ("ctorlit", _CtorLit), ("demorgan", _DeMorgan), ("passes", _Passes), ("argtemp", _ArgTemp)):
+    for k_, cls_ in (("swapifexp", _SwapIfExp), ("yoda", _Yoda), ("kwreorder", _KwReorder), ("excorder", _ExcOrder), ("msgtext", _MsgText), ("ctorlit", _CtorLit), ("demorgan", _DeMorgan), ("passes", _Passes), ("argtemp", _ArgTemp), ("methodorder", _MethodOrder), ("addelse", _AddElse)):
         if kind == k_:
             tree = cls_().visit(tree)
     if kind == "retvar":
